@@ -125,6 +125,22 @@ def exchOf {L} (s : Scn L) (r : XRec) : Exch :=
       | _, _ => []),
     tEnd := r.tEnd }
 
+/-- the body the model's client scans in this exchange (as the faithful server serves it) -/
+def scanOfX {L} (s : Scn L) (r : XRec) : Option ScanOut :=
+  match r.kind, r.from_ with
+  | .ok c t, some f => some (scanBytes ((bodyFrom s.items f).take c) t)
+  | _, _ => none
+
+/-- the exchange as an attempt of the model's reconnect loop -/
+def attemptOfX {L} (s : Scn L) (r : XRec) : Attempt :=
+  match r.kind with
+  | .terr => .terr
+  | .st c => .resp c (fun _ => ⟨[], .clean⟩)
+  | .ok _ _ =>
+    match scanOfX s r with
+    | some so => .resp 200 (fun _ => so)
+    | none => .resp 400 (fun _ => ⟨[], .clean⟩)    -- the scripted server refuses an unknown Last-Event-ID
+
 /-- the monitor's bookkeeping: the history of exchanges and two flags about past resume requests -/
 structure Mon where
   exch : List Exch := []
